@@ -154,27 +154,33 @@ theorem c07_nolibcall_fixed_witness :
       [{ time := 10, type := 0, depth := 0, addr := 0 }, { time := 50, type := 1, depth := 0, addr := 0 }] := by
   intro cmd; cases cmd <;> decide
 
-/-- **MAIN — record time = replay time, -F / -N / -D.**  For every table of -F / -N entries,
-    every -D, both hook families (-pg and -mfentry with the repair of F4, and
-    -finstrument-functions), every forest of timed, properly nested calls within --max-stack:
-    the records the hooks write with the options equal what every analysis command shows when
-    the same options are applied to the unfiltered eager trace. -/
-theorem c07_record_eq_replay (cfg : Cfg) (h : FND cfg) (ht0 : cfg.threshold = 0) (k : Kind) (cs : Calls) (n : Nat)
+/-- **MAIN — record time = replay time, -F / -N / -D / -t.**  For the code with the repair of S4
+    (`s4fixed`: the exit hooks keep a call that ran at least the threshold, like the look-ahead
+    at analysis time), for every table of -F / -N entries, every -D and every -t, both hook
+    families (-pg and -mfentry with the repair of F4, and -finstrument-functions), every forest
+    of properly nested calls within --max-stack (zero-duration calls included; an exit time 0 is
+    the hooks' "not returned yet" sentinel and excluded): the records the hooks write with the
+    options equal what every analysis command shows when the same options are applied to the
+    unfiltered eager trace. -/
+theorem c07_record_eq_replay (cfg : Cfg) (h : FND cfg) (hs4 : cfg.s4fixed = true) (k : Kind) (cs : Calls) (n : Nat)
     (hh : cs.height ≤ cfg.maxStack) (hn : Calls.allDurLe n cs) (cmd : Cmd) :
     (runCalls cfg k (St.init cfg) cs).out = cmdOut (RCfg.ofRecord cfg) cmd (evCalls 0 cs) := by
   have hq : Quiet (RCfg.ofRecord cfg) := by
     intro f; show (cfg.trig f).traceOn = false ∧ (cfg.trig f).traceOff = false; rw [h.trig f]; exact ⟨rfl, rfl⟩
-  have hnt : ∀ f, ((RCfg.ofRecord cfg).trig f).time = none := by
-    intro f; show (cfg.trig f).time = none; rw [h.trig f]
   rw [record_out cfg h k cs n hh hn,
-    c07_replay_refines_spec (RCfg.ofRecord cfg) hq rfl ⟨rfl, rfl⟩ h.en cs (ordered_of_allDurLe cs n hn) cmd]
-  simp only [spec]
-  have : (RCfg.ofRecord cfg).threshold = 0 := ht0
-  rw [this, prune_strict_calls (RCfg.ofRecord cfg) cs 0 (noBoundary_zero_calls _ hnt cs n hn)]
+    c07_replay_refines_spec (RCfg.ofRecord cfg) hq rfl ⟨rfl, rfl⟩ h.en cs (ordered_of_allDurLe cs n hn) cmd, hs4]
+  rfl
 
-/-- **… and with -t**, for forests in which no call ran exactly as long as the threshold
-    (record time keeps `> t`, replay time `≥ t`: `c07_time_boundary_witness`). -/
-theorem c07_record_eq_replay_partial (cfg : Cfg) (h : FND cfg) (k : Kind) (cs : Calls) (n : Nat)
+/-- the record side alone, for both versions of the duration test: what the hooks write is the
+    documented selection, with `>` before the repair of S4 and `≥` after it -/
+theorem c07_record_refines_spec (cfg : Cfg) (h : FND cfg) (k : Kind) (cs : Calls) (n : Nat)
+    (hh : cs.height ≤ cfg.maxStack) (hn : Calls.allDurLe n cs) :
+    (runCalls cfg k (St.init cfg) cs).out = spec (RCfg.ofRecord cfg) (!cfg.s4fixed) cs :=
+  record_out cfg h k cs n hh hn
+
+/-- the code before the repair of S4 (`s4fixed = false`) agrees with the analysis commands only on
+    forests in which no call ran exactly as long as the threshold (`c07_time_boundary_witness`) -/
+theorem c07_prefix_record_eq_replay_partial (cfg : Cfg) (h : FND cfg) (k : Kind) (cs : Calls) (n : Nat)
     (hh : cs.height ≤ cfg.maxStack) (hn : Calls.allDurLe n cs)
     (hb : Calls.noBoundary (RCfg.ofRecord cfg) cfg.threshold cs) (cmd : Cmd) :
     (runCalls cfg k (St.init cfg) cs).out = cmdOut (RCfg.ofRecord cfg) cmd (evCalls 0 cs) := by
@@ -184,31 +190,30 @@ theorem c07_record_eq_replay_partial (cfg : Cfg) (h : FND cfg) (k : Kind) (cs : 
     c07_replay_refines_spec (RCfg.ofRecord cfg) hq rfl ⟨rfl, rfl⟩ h.en cs (ordered_of_allDurLe cs n hn) cmd]
   simp only [spec]
   have hthr : (RCfg.ofRecord cfg).threshold = cfg.threshold := rfl
-  rw [hthr, prune_strict_calls (RCfg.ofRecord cfg) cs _ hb]
+  cases cfg.s4fixed with
+  | true => rfl
+  | false => rw [hthr]; simp only [Bool.not_false]; rw [prune_strict_calls (RCfg.ofRecord cfg) cs _ hb]
 
-/-- the record side alone: what the hooks write is the documented selection with `>` -/
-theorem c07_record_refines_spec (cfg : Cfg) (h : FND cfg) (k : Kind) (cs : Calls) (n : Nat)
-    (hh : cs.height ≤ cfg.maxStack) (hn : Calls.allDurLe n cs) :
-    (runCalls cfg k (St.init cfg) cs).out = spec (RCfg.ofRecord cfg) true cs :=
-  record_out cfg h k cs n hh hn
-
-/-- non-vacuity: `-F f1 -N f3 -D 2 -t 5` with a three-level forest meets all hypotheses -/
+/-- non-vacuity: `-F f1 -N f3 -D 2 -t 5` with a three-level forest that contains a call of exactly
+    5 ns and a zero-duration call meets all hypotheses of `c07_record_eq_replay` -/
 example :
     let cfg : Cfg := { depthOpt := 2, threshold := 5, optIn := true,
                        trig := fun f => { filter := if f = 1 then some true else if f = 3 then some false else none } }
-    let cs : Calls := .cons (.node 1 10 60 (.cons (.node 2 20 40 (.cons (.node 3 25 28 .nil) .nil)) .nil)) .nil
-    FND cfg ∧ cs.height ≤ cfg.maxStack ∧ Calls.allDurLe 100 cs ∧
-      Calls.noBoundary (RCfg.ofRecord cfg) cfg.threshold cs := by
-  refine ⟨⟨rfl, rfl, rfl, rfl, rfl, rfl, fun f => ?_⟩, by decide, ?_, ?_⟩
+    let cs : Calls := .cons (.node 1 10 60 (.cons (.node 2 20 25 (.cons (.node 3 22 22 .nil) .nil)) .nil)) .nil
+    FND cfg ∧ cfg.s4fixed = true ∧ cs.height ≤ cfg.maxStack ∧ Calls.allDurLe 100 cs := by
+  refine ⟨⟨rfl, rfl, rfl, rfl, rfl, rfl, fun f => ?_⟩, rfl, by decide, ?_⟩
   · simp only
   · simp [Calls.allDurLe, Call.nestOK, Call.dur]
-  · simp [Calls.noBoundary, Call.noBoundary, RCfg.ofRecord]
 
-/-- S4 (boundary of -t): a call that ran exactly the threshold is dropped when the
-    threshold is given at record time (`>`), and shown when it is given at replay time (`≥`). -/
+/-- S4, the code before its repair (`s4fixed := false`): a call that ran exactly the threshold was
+    dropped when the threshold was given at record time (`>`), and is shown when it is given at
+    replay time (`≥`); with the repair the hooks write it. -/
 theorem c07_time_boundary_witness :
-    (runCalls { threshold := 10 } .pg (St.init { threshold := 10 }) (.cons (.node 1 100 110 .nil) .nil)).out = [] ∧
+    (runCalls { threshold := 10, s4fixed := false } .pg (St.init { threshold := 10, s4fixed := false })
+        (.cons (.node 1 100 110 .nil) .nil)).out = [] ∧
     cmdOut (RCfg.ofRecord { threshold := 10 }) .replay (evCalls 0 (.cons (.node 1 100 110 .nil) .nil)) =
+      [{ time := 100, type := 0, depth := 0, addr := 1 }, { time := 110, type := 1, depth := 0, addr := 1 }] ∧
+    (runCalls { threshold := 10 } .pg (St.init { threshold := 10 }) (.cons (.node 1 100 110 .nil) .nil)).out =
       [{ time := 100, type := 0, depth := 0, addr := 1 }, { time := 110, type := 1, depth := 0, addr := 1 }] := by
   decide
 
